@@ -104,6 +104,10 @@ pub fn c01_worker(ctx: &mut Ctx) {
             ctx.sample(case_brief(&case));
         }
     }
+    crate::props::run_known(ctx, &mut |case, op, f32_run| {
+        let w = witnesses(case, case.tol(f32_run));
+        c01_check(case, op, f32_run, Pairing::MM, &w).map(|_| ())
+    });
     ctx.monitor.insert("hook_hits".into(), json!(hits_map()));
 }
 
